@@ -72,6 +72,9 @@ class Mon(Monitor):
                         self.see('resent-publish')
                     elif r in want_rel:
                         out.append(V('resume', 'publish-resent-for-released-id', 'request %d already has a PUBREL, PUBLISH re-sent at CONNACK' % r.idx))
+                    elif len(r.tx) == 1 and p['dup']:
+                        out.append(V('resume', 'held-back-released-with-dup/q%d' % r.qos,
+                                     'request %d was never on the wire before; the resumption sends it with DUP=1' % r.idx))
                     elif r.conn == c.idx and len([t for t in r.tx if t[1] == c.idx]) > 1:
                         out.append(V('resume', 'own-request-resent-at-connack/q%d' % r.qos,
                                      'request %d was first sent on this connection and is re-sent by the resumption' % r.idx))
